@@ -462,7 +462,7 @@ class CStyleParser(Parser):
                     if not key:
                         continue
 
-                    val = nextval if not val else Expression(self.cstruct, val).evaluate()
+                    val = nextval if not val else Expression(self.cstruct, val).evaluate(values)
 
                     if enumtype == "flag":
                         high_bit = val.bit_length() - 1
